@@ -326,6 +326,9 @@ def run(ctx):
     finally:
         ctx.only = None
         ctx.rename = None
+    # reader-only clauses of the shared sequence-count rule (encodings this compressor never writes) belong to C01 / C14
+    ctx.obs[before:] = [o for o in ctx.obs[before:]
+                        if not (o.key.endswith("::length-and-modes-byte") or o.key == "reader::empty-input-refused-first")]
     ctx.floor("C02.wire", len([o for o in ctx.obs[before:] if o.cfg == ctx.cfg]), 60, "writer-side wire-format obligations")
 
 
